@@ -13,7 +13,7 @@ from typing import Any, Dict, List, Optional
 import zeroconf._listener as lst
 from vkit import env
 from vkit.build import mk_incoming
-from vkit.responder import V4A, Svc
+from vkit.responder import V4A, V4C, Svc
 from vkit.runner import Obligation
 from zeroconf import const
 from zeroconf._dns import DNSAddress, DNSNsec, DNSPointer, DNSService, DNSText
@@ -24,6 +24,7 @@ from zeroconf.asyncio import AsyncServiceBrowser
 PROPERTY = 'C07'
 T1 = '_http._tcp.local.'
 N1 = 'Alpha._http._tcp.local.'
+N3 = 'Gamma._http._tcp.local.'
 
 
 def clone(r: Any, now: Any, ttl: Any) -> Any:
@@ -42,8 +43,8 @@ def clone(r: Any, now: Any, ttl: Any) -> Any:
 
 
 class Link:
-    def __init__(self, loop: Any, ctx: Any, drop: Optional[int], symbolic: List[int]) -> None:
-        self.loop, self.ctx, self.drop, self.symbolic = loop, ctx, drop, symbolic
+    def __init__(self, loop: Any, ctx: Any, drop: Optional[int], symbolic: List[int], dup: Optional[int] = None) -> None:
+        self.loop, self.ctx, self.drop, self.symbolic, self.dup = loop, ctx, drop, symbolic, dup
         self.hosts: Dict[str, Any] = {}
         self.n = 0
         self.table: Dict[bytes, Any] = {}
@@ -76,6 +77,9 @@ class Link:
             if multicast or addr[0] == ip:
                 d = 0 if ip == src else delay
                 self.loop.call_at(env.Sec(self.loop.now_ms + d), self.deliver, zc, data, src)
+                if k == self.dup and ip != src:
+                    # link-layer duplication: a second copy of this datagram, up to 100 ms after the first
+                    self.loop.call_at(env.Sec(self.loop.now_ms + d + self.ctx.int(f'dupdelay{k}_{ip[-1]}', 0, 100)), self.deliver, zc, data, src)
 
     def deliver(self, zc: Any, data: bytes, src: str) -> None:
         if zc.done:
@@ -109,12 +113,23 @@ def make(shape: Dict[str, Any]) -> Any:
         t0 = 1_000_000
         loop = env.begin(ctx, t0, fixed_rand=True)
         env.use_token_packets(True)
-        link = Link(loop, ctx, shape.get('drop'), shape.get('symbolic', []))
+        link = Link(loop, ctx, shape.get('drop'), shape.get('symbolic', []), shape.get('dup'))
         za, zb = env.make_zc(loop), env.make_zc(loop)
         link.attach('10.0.0.1', za)
         link.attach('10.0.0.2', zb)
+        za.engine._async_schedule_next_cache_cleanup()  # the periodic purge runs on every host, as after a real start
+        zb.engine._async_schedule_next_cache_cleanup()
         log: List[Any] = []
         lookups: List[Any] = []
+        log_c: List[Any] = []
+        lookups_c: List[Any] = []
+        if shape.get('third_host'):
+            # a third host that browses the same type and has a service of its own (registered long ago)
+            zc3 = env.make_zc(loop)
+            link.attach('10.0.0.3', zc3)
+            zc3.engine._async_schedule_next_cache_cleanup()
+            zc3.registry.async_add(Svc('S3', T1, N3, 'gamma.local.', 8083, [V4C], []).info())
+            AsyncServiceBrowser(zc3, T1, listener=L(loop, log_c, lookups_c))
         if shape.get('browser_first', True):
             AsyncServiceBrowser(zb, T1, listener=L(loop, log, lookups))
         loop.advance_by(ctx.int('register_at', 0, shape.get('register_max', 300)))
@@ -140,16 +155,47 @@ def make(shape: Dict[str, Any]) -> Any:
             ctx.check(task.done() and task._res is True, 'lookup from the Added callback did not resolve the service')
             if task.done() and task._res is True and linfo.name == N1:
                 ctx.check(linfo.port == 80 and linfo.server == 'alpha.local.' and [a.packed for a in linfo._ipv4_addresses] == [V4A], 'lookup resolved wrong host / port / addresses')
+                ctx.check(linfo.text == svc.text, 'lookup resolved wrong TXT')
+        if shape.get('third_host'):
+            for who, lg, want in (('second browser', log_c, [N1]), ('first browser', log, [N1, N3])):
+                for nm in want:
+                    ctx.check(len([e for e in lg if e[1] == 'Added' and e[2] == nm]) == 1, f'{who}: {nm} not reported Added exactly once')
+                ctx.check(not [e for e in lg if e[1] == 'Removed'], f'{who} reported Removed although everything is registered')
+            for linfo, task in lookups_c + lookups:
+                ctx.check(task.done() and task._res is True, 'a lookup from an Added callback did not resolve')
+                if task.done() and task._res is True and linfo.name == N3:
+                    ctx.check(linfo.port == 8083 and linfo.server == 'gamma.local.' and [a.packed for a in linfo._ipv4_addresses] == [V4C], 'lookup of the third host\'s service resolved wrong host / port / addresses')
+        if shape.get('update'):
+            # the service is updated (new port and TXT): the set of instances does not change, a fresh lookup sees the new data
+            svc2 = Svc('S1', T1, N1, 'alpha.local.', 8088, [V4A], [], text=b'\x06path=/')
+            info = svc2.info()
+            upd = loop.create_task(za.async_update_service(info))
+            loop.advance_by(3000)
+            ctx.check(upd.done() and upd._exc is None, 'update did not complete')
+            ctx.check(len([e for e in log if e[1] == 'Added' and e[2] == N1]) == 1 and not [e for e in log if e[1] == 'Removed'], 'an update changed the set of reported instances')
+            fresh = AsyncServiceInfo(T1, N1)
+            ft = loop.create_task(fresh.async_request(zb, 3000))
+            loop.advance_by(3100)
+            ctx.check(ft.done() and ft._res is True and fresh.port == 8088 and fresh.text == svc2.text, 'a lookup after the update does not resolve the updated port / TXT')
         # withdrawal
         if shape.get('drop_after_withdraw') is not None:
             link.drop = link.n + shape['drop_after_withdraw']
-        un = loop.create_task(za.async_unregister_service(info))
+        if shape.get('close'):
+            from zeroconf.asyncio import AsyncZeroconf
+
+            un = loop.create_task(AsyncZeroconf(zc=za).async_close())
+        else:
+            un = loop.create_task(za.async_unregister_service(info))
         withdrawn = loop.now_ms
         loop.advance_to(withdrawn + 3000)
         removed = [e for e in log if e[1] == 'Removed' and e[2] == N1]
         ctx.check(len(removed) == 1, f'browser reported Removed {len(removed)} times after the service was withdrawn')
         ctx.check(len([e for e in log if e[1] == 'Added' and e[2] == N1]) == 1, 'the withdrawn service was reported Added again')
         ctx.check(log and [e for e in log if e[2] == N1][-1][1] == 'Removed', 'the browser ends up listing a withdrawn service')
+        ctx.check(un.done() and un._exc is None, 'withdrawal did not complete')
+        if shape.get('third_host'):
+            ctx.check(len([e for e in log_c if e[1] == 'Removed' and e[2] == N1]) == 1, 'second browser: withdrawn service not reported Removed exactly once')
+            ctx.check(not [e for e in log if e[1] == 'Removed' and e[2] == N3], 'first browser: a still-registered service was reported Removed')
 
     return fn
 
@@ -161,8 +207,18 @@ def obligations(tier: str) -> List[Obligation]:
     for j in range(0, 3):
         shapes[f'drop-goodbye-{j}'] = {'drop_after_withdraw': j, 'symbolic': [1]}
     shapes['two-services-early-withdraw'] = {'second_service': True, 'early_withdraw': True, 'symbolic': []}
+    for k in ((1, 4, 7) if tier == 'quick' else range(0, 10)):
+        shapes[f'dup-{k}'] = {'dup': k, 'symbolic': [k + 1]}
+    shapes['close-instead-of-unregister'] = {'close': True, 'symbolic': [3]}
+    shapes['close-drop-goodbye-0'] = {'close': True, 'drop_after_withdraw': 0, 'symbolic': []}
+    shapes['update-then-withdraw'] = {'update': True, 'symbolic': []}
+    shapes['three-hosts'] = {'third_host': True, 'symbolic': [2]}
     if tier == 'thorough':
         shapes['late-browser'] = {'browser_first': False, 'symbolic': [2]}
+        shapes['three-hosts-drop-3'] = {'third_host': True, 'drop': 3, 'symbolic': [4]}
+        shapes['three-hosts-drop-goodbye-1'] = {'third_host': True, 'drop_after_withdraw': 1, 'symbolic': []}
+        shapes['update-drop-next'] = {'update': True, 'symbolic': [], 'drop_after_update': 0}
+        shapes['close-drop-goodbye-2'] = {'close': True, 'drop_after_withdraw': 2, 'symbolic': []}
     return [Obligation(f'link[{k}]', make(v), 'link', {'name': k, **v}, timeout=300 if tier == 'quick' else 1200) for k, v in shapes.items()]
 
 
